@@ -510,6 +510,13 @@ def _domain_cache(prog):
     return domain_cache(prog)
 
 
+def _hv_truth(prog):
+    # a solution / binding / argument whose value is falsy is a value like any other: bound values are asked for presence, not for truth
+    from .hvtruth import hv_truth
+
+    return hv_truth(prog)
+
+
 def run(prog: Program, tier: str) -> List[RuleResult]:
     # thorough: every cell is witnessed by all integer models up to 8 instead of 4 (same cells: the ordering domain is finite)
-    return [qc_table(prog, 9 if tier == "thorough" else 4), qc_ctor(prog), qc_path(prog), qc_map(prog), qc_errors(prog), _opt_truth(prog), _domain_cache(prog)]
+    return [qc_table(prog, 9 if tier == "thorough" else 4), qc_ctor(prog), qc_path(prog), qc_map(prog), qc_errors(prog), _opt_truth(prog), _domain_cache(prog), _hv_truth(prog)]
